@@ -170,6 +170,43 @@ PROPS = {
                         "a truncated atom line keeps at least 7 characters (a bare 'ATOM  ' is not a record for the reader and is skipped without a diagnostic)",
                         "the refinement theorem read_pdb (render recs) = denote recs is not proved; the two are compared on every generated text"],
     },
+    "C02": {
+        "translators": ["t2a", "t2b", "t2c"],
+        "count": {"quick": 60, "thorough": 600},
+        "rule": "documents from a grammar-directed writer: 1-3 models (equal or different), 1-3 chains, residues with insertion codes, alternate "
+                "locations (blank + labelled), hetero groups with '.' label_seq_id, optional atom_site columns present or absent in every "
+                "combination, optional cell / symmetry (number, H-M or Hall name, or both) / scale / origx / NCS operators (partial matrices); each "
+                "document rendered in 4 layouts (bare words only; any spelling: bare, single / double quoted with padding, text field; twice with "
+                "foreign single items, loops, text fields and save frames between the groups, foreign atom_site columns, random column order, "
+                "random white space, comments, CRLF, upper-case reserved words); numbers in sign / decimal / exponent forms.  Observed: the full "
+                "outcome (compared with the reader model), acceptance at the loose level, and the structure and metadata (compared with the "
+                "document specification).  4 single-token corruptions per document (non-numeric token in a numeric column, '.' / '?' for a "
+                "mandatory value) read at loose and strict: never accepted.  Known-finding streams: numeric-looking identifiers written bare "
+                "in a non-canonical form, a quote inside a quoted string, residue number stated by neither column.  non-trivial = document with "
+                "more than one atom row; distinct = distinct case line",
+        "assumptions": ["input is ASCII; a bare word never starts with '.' or '?' (the lexer splits such a word; not generated)",
+                        "insertion codes and alternate locations that differ only in case are not generated for one residue",
+                        "NCS operator ids are distinct and the items of one operator are contiguous (the reader attaches matrix items to the last id seen)",
+                        "numbers with a standard uncertainty, and quoted numbers, are not generated for numeric columns",
+                        "atom serial numbers are not stated by an mmCIF row; the specification numbers the atoms of a model from 0 in row order, as the reader does"],
+    },
+    "C06": {
+        "translators": ["t7", "t2a", "t2b", "t2c"],
+        "profiles": ["release", "checked"],
+        "count": {"quick": 300, "thorough": 3000},
+        "rule": "every second prefix (every prefix in the thorough tier) of a hand-written mmCIF file that uses every construct of the grammar and every "
+                "category the reader recognises; every single-token replacement by one random member (all members, thorough) of each token class "
+                "(reserved words, quotes, semicolons, '.', '?', huge numbers, non-ASCII words, others) and every token deletion; about 900 "
+                "structural faults (loop without header, header without values, ragged loop, unterminated quote / text field / save frame, missing "
+                "mandatory column, every mandatory value replaced by '.', '?', text, uncertainty, huge; every metadata item with 19 kinds of value) "
+                "at every level; multi-fault mutations; sampled prefixes and token replacements of the repository's 1ubq.cif; invalid UTF-8; random "
+                "read options (2^3) and levels; each read on its own thread with a 20 s limit, in the release profile and in a profile with overflow "
+                "checks.  Observed: classified (Ok or Err; no panic, no time-out), every diagnostic renders (Display and Debug); on ASCII input the "
+                "whole outcome is also compared with the reader model.  non-trivial: every case; distinct = distinct case line",
+        "assumptions": ["termination of the compiled code is observed (each call returns within the limit); it is proved for the lexer model",
+                        "non-ASCII input is explored on the implementation only (the reader model is byte = character)",
+                        "the position bookkeeping (line, column) of the lexer and the contexts of diagnostics are not modelled; diagnostics are compared as (level, short description)"],
+    },
     "C05": {
         "translators": ["t7", "t2a", "t2b", "t2c"],
         "profiles": ["release", "checked"],
